@@ -36,7 +36,7 @@ DOCUMENTED_OUT = {
 
 
 class Summary:
-    __slots__ = ("mut", "ret", "ret_attrs", "detail", "selfsets", "rng", "attr_mut", "selfset_roots")
+    __slots__ = ("mut", "ret", "ret_attrs", "detail", "selfsets", "rng", "attr_mut", "selfset_roots", "opaque_mut")
 
     def __init__(self):
         self.mut = set()        # parameter names mutated
@@ -47,6 +47,7 @@ class Summary:
         self.rng = []           # nodes calling numpy.random.*
         self.attr_mut = set()   # self attributes mutated in place
         self.selfset_roots = []  # (attr, node, roots of the assigned value)
+        self.opaque_mut = []    # (node, why): in-place updates of a value returned by an opaque callable (operator / user function)
 
 
 class Effects:
@@ -328,10 +329,14 @@ class Analyzer:
         r = {F}
         for a in list(arg_roots) + list(kw_roots.values()):
             r |= {x for x in a if x[0] in ("P", "A")}
+        if len(r) > 1:
+            r.add(("O",))   # the result of an opaque callable: it may be one of its arguments (Identity, Reshape, `lambda u: u`)
         return r
 
     # ---------------------------------------------------------------- recording
     def record(self, roots, node, why, via=None):
+        if ("O",) in roots:
+            self.s.opaque_mut.append((node, why))
         for r in roots:
             if r[0] == "P":
                 self.s.mut.add(r[1])
